@@ -178,7 +178,7 @@ class SDM():
                         sdm_item.atom2.molindex = self.maxmol
                         someleft += 1
             for ni, at in enumerate(all_atoms):
-                if not at.ishydrogen and at.molindex < 0:
+                if at.molindex < 0:
                     nextmol = ni
                     break
             if nextmol:
